@@ -55,7 +55,7 @@ MUTANTS = {
   ('key_from_name', 'deferred key built from __name__',
    [(PP, "    return type.__module__ + '.' + type.__qualname__", "    return type.__module__ + '.' + type.__name__")]),
   ('noregister_still_promotes', 'register_deferred=False still promotes (exact type)',
-   [(PP, "            if deferred_key in _DEFERRED_DISPATCH_BY_NAME:\n                if register_deferred:\n                    deferred_dispatch = _DEFERRED_DISPATCH_BY_NAME.pop(\n                        deferred_key\n                    )\n                    register_pretty(type)(deferred_dispatch)\n                return True", "            if deferred_key in _DEFERRED_DISPATCH_BY_NAME:\n                if True:\n                    deferred_dispatch = _DEFERRED_DISPATCH_BY_NAME.pop(\n                        deferred_key\n                    )\n                    register_pretty(type)(deferred_dispatch)\n                return True")]),
+   [(PP, "                if register_deferred:\n                    # register_pretty drops the deferred entry", "                if True:\n                    # register_pretty drops the deferred entry")]),
   ('predicates_last_first', 'last registered predicate wins',
    [(PP, "    for predicate, fn in _PREDICATE_REGISTRY:", "    for predicate, fn in reversed(_PREDICATE_REGISTRY):")]),
   ('prefix_fastpath', 'pre-fix fast path: live registry answers before the deferred table',
@@ -99,6 +99,8 @@ MUTANTS = {
  'C20': [
   ('lock_removed', 'pre-fix: no lock around check/pop/register',
    [(PP, "    with _DEFERRED_DISPATCH_LOCK:\n        if check_deferred:", "    if True:\n        if check_deferred:")]),
+  ('pop_before_register', 'pre-a55e300: deferred entry dropped before the new printer is live',
+   [(PP, "                pretty_dispatch.register(type, partial(_run_pretty, fn))\n                # A later registration", "                _DEFERRED_DISPATCH_BY_NAME.pop(get_deferred_key(type), None)\n                pretty_dispatch.register(type, partial(_run_pretty, fn))\n                # A later registration")]),
   ('lock_only_on_exact', 'supertype promotion outside the lock',
    [(PP, "        if not check_superclasses:\n            return False\n\n        if check_deferred:\n            # Check deferred printers for supertypes.\n            for supertype in type.__mro__[1:]:", "        if not check_superclasses:\n            return False\n\n    if True:\n        if check_deferred:\n            # Check deferred printers for supertypes.\n            for supertype in type.__mro__[1:]:")]),
   ('visited_module_global', 'one module-level visited set shared by all threads',
@@ -120,7 +122,7 @@ def apply(root, edits):
         p = os.path.join(root, rel)
         s = open(p).read()
         if old not in s:
-            raise SystemExit('mutant does not apply: %r not found in %s' % (old[:60], rel))
+            raise ValueError('mutant does not apply: %r not found in %s' % (old[:60], rel))
         open(p, 'w').write(s.replace(old, new, 1))
 
 
@@ -135,7 +137,13 @@ def main():
             try:
                 root = os.path.join(scratch, 'repo')
                 shutil.copytree('/repo', root, ignore=shutil.ignore_patterns('.git', '__pycache__', 'docs', '*.png'))
-                apply(root, edits)
+                try:
+                    apply(root, edits)
+                except ValueError as e:
+                    print('%s %-40s DOES NOT APPLY: %s' % (cid, name, e))
+                    results['%s/%s' % (cid, name)] = dict(property=cid, mutant=name, description=desc, detected=None,
+                                                          first=str(e))
+                    continue
                 subprocess.run(['/venv/bin/python', '-c', 'import sys; sys.path.insert(0, %r); import prettyprinter' % root],
                                check=True, cwd=scratch)
                 env = dict(os.environ, VERIF_REPO=root)
